@@ -373,7 +373,8 @@ _PGM = ('pgm', ['PyPrelude', 'PgmState', 'LineTok', 'PgmSrc', 'PgmEquiv', 'SrcPr
 TIES = {
     'C01': _PGM, 'C03': _PGM, 'C12': _PGM,
     'C13': ('SrcLp.v', ['PyPrelude', 'PgmState', 'PureState', 'SrcLp', 'EquivLp'], 'EquivLp'),
-    'C08': ('SrcNw.v', ['PyPrelude', 'PgmState', 'PureState', 'SrcNw', 'EquivNw'], 'EquivNw'),
+    'C08': [('SrcNw.v', ['PyPrelude', 'PgmState', 'PureState', 'SrcNw', 'EquivNw'], 'EquivNw'),
+            ('SrcWr.v', ['PyPrelude', 'PgmState', 'PureState', 'LineTok', 'PgmSrc', 'PgmEquiv', 'SrcWr', 'EquivWr'], 'EquivWr')],
     'C05': ('SrcTc.v', ['PyPrelude', 'PgmState', 'PureState', 'SrcTc', 'EquivTc'], 'EquivTc'),
     'C06': ('SrcTc.v', ['PyPrelude', 'PgmState', 'PureState', 'SrcTc', 'EquivTc'], 'EquivTc'),
     'C07': ('SrcTr.v', ['PyPrelude', 'PgmState', 'TrState', 'SrcTr', 'EquivTr'], 'EquivTr'),
@@ -382,19 +383,18 @@ TIE_PROPS = set(TIES)
 COQ_W = '-deprecated-hint-without-locality,-deprecated-instance-without-locality,-notation-overridden'
 
 
-def source_tie(rep: Report, prop: str) -> dict:
+def source_tie_group(rep: Report, prop: str, group: str, tie_files: list, stmt_file: str) -> dict:
     """Returns {'ok', 'stage', 'log', 'theorems', 'axioms'}; reports a no-failing-input violation when the tie breaks."""
-    d = WORK / prop / 'tie'
+    d = WORK / prop / ('tie_' + group.replace('.v', ''))
     if d.exists():
         shutil.rmtree(d)
     d.mkdir(parents=True)
     for f in (COQ / 'tie').glob('*.v'):
         shutil.copy(f, d / f.name)
-    group, tie_files, stmt_file = TIES[prop]
     src = REPO / 'src' / 'femto'
     gen_name = 'PgmSrc.v' if group == 'pgm' else group
     res = {'ok': False, 'stage': 'translate', 'log': '', 'theorems': [], 'axioms': {}, 'source': str(src), 'generated': gen_name}
-    rc, out = sh([sys.executable, '-B', str(VERIF / 'harness' / 'py2coq.py'), str(src), str(d), group], 120)
+    rc, out = sh([sys.executable, '-B', str(VERIF / 'harness' / 'py2coq.py'), str(src), str(d)] + (['pgm', group] if group == 'SrcWr.v' else [group]), 120)
     if rc != 0:
         res['log'] = out[-1500:]
         rep.violation('proof/source-tie/translator',
@@ -448,6 +448,23 @@ def source_tie(rep: Report, prop: str) -> dict:
     res['stage'] = 'done'
     shutil.rmtree(d, ignore_errors=True)
     return res
+
+
+def source_tie(rep: Report, prop: str) -> dict:
+    """all translation groups of a property; merged result"""
+    groups = TIES[prop] if isinstance(TIES[prop], list) else [TIES[prop]]
+    merged = {'ok': True, 'stage': 'done', 'theorems': [], 'axioms': {}, 'source': None, 'generated': [], 'generated_sha1': []}
+    for group, files, stmt in groups:
+        r = source_tie_group(rep, prop, group, files, stmt)
+        merged['source'] = r.get('source')
+        merged['generated'].append(r.get('generated'))
+        merged['generated_sha1'].append(r.get('generated_sha1'))
+        merged['theorems'] += r['theorems']
+        merged['axioms'].update(r['axioms'])
+        if not r['ok']:
+            merged['ok'] = False
+            merged['stage'] = f"{group}:{r['stage']}"
+    return merged
 
 
 def static_obligations(rep: Report, prop: str, tier: str = 'quick'):
